@@ -285,7 +285,22 @@ struct DWorld : World {
 				if (op.c & 1) { m.used = cutat; v.iov_base = data.p + cutat; v.iov_len = data.n - cutat; m.cont = &v; m.clen = 1; }
 				event ev; ev.msg = &m;
 				uintptr_t hid = mpt_hash(nm, (int) nl);
-				char what[80]; snprintf(what, sizeof what, "HASH '%s'%s", nm, (op.c & 1) ? " fragmented" : "");
+				char what[96]; snprintf(what, sizeof what, "HASH '%s'%s", nm, (op.c & 1) ? " fragmented" : "");
+				if ((op.c >> 1) % 3 == 0) {
+					// the same command as separator-delimited text ({Command, ' '} "  name arg"): leading separators are skipped, the message lies in
+					// one, two or three fragments cut anywhere (also right behind the separators, also with an empty fragment in between)
+					uint64_t z = ((uint64_t) op.c + 1) * 0x9e3779b97f4a7c15ull ^ ((uint64_t) op.b * 0xff51afd7ed558ccdull);
+					size_t lead = (size_t) (z >> 8) % 4;
+					std::string t; t.push_back(0x04); t.push_back(' '); t.append(lead, ' '); t += nm; t += " arg";
+					Block tb(t.size(), 0); memcpy(tb.p, t.data(), t.size());
+					size_t c1 = (size_t) (z >> 16) % (t.size() + 1), c2 = c1 + (size_t) (z >> 32) % (t.size() - c1 + 1);
+					struct iovec fr[2];
+					m.base = tb.p; m.used = c1; fr[0].iov_base = tb.p + c1; fr[0].iov_len = c2 - c1; fr[1].iov_base = tb.p + c2; fr[1].iov_len = t.size() - c2; m.cont = fr; m.clen = 2;
+					snprintf(what, sizeof what, "HASH text '%s' after %zu separators, fragments %zu+%zu+%zu", nm, lead, c1, c2 - c1, t.size() - c2);
+					st.hit("probe:hash_of_fragmented_text");
+					emit(&ev, hid, true, what, true); outcome = live.count(hid) ? 1 : 2;
+					break;
+				}
 				emit(&ev, hid, true, what, true); outcome = live.count(hid) ? 1 : 2;
 				break;
 			}
